@@ -33,6 +33,9 @@ type Scenario struct {
 	Events  []Event `json:"events"`
 	// Obs: bit i set = request i goes through DoObserve instead of Do (the limiter guards both)
 	Obs uint `json:"obs,omitempty"`
+	// Root: path 0 is the root resource "/" - its requests carry no Uri-Path option at all (a
+	// zero-length path is a target path like any other)
+	Root bool `json:"root,omitempty"`
 }
 
 type reqState struct {
@@ -93,7 +96,9 @@ func Exec(t *testing.T, sc Scenario) *evid.Failure {
 			m := pool.NewMessage(ctx)
 			m.SetCode(codes.GET)
 			m.SetToken([]byte{byte(i)})
-			m.MustSetPath(fmt.Sprintf("/p%d", pathOf(i)))
+			if !(sc.Root && pathOf(i) == 0) {
+				m.MustSetPath(fmt.Sprintf("/p%d", pathOf(i)))
+			}
 			reqs[i] = m
 			mu.Lock()
 			arriveCounter++
@@ -472,6 +477,7 @@ func exhaustive(t *testing.T, n int) evid.Engine {
 // than it ever holds at once.
 func genLong(t *rapid.T) Scenario {
 	sc := Scenario{Total: int64(rapid.SampledFrom([]int{0, 0, 2, 3}).Draw(t, "total")), PerPath: int64(rapid.IntRange(1, 2).Draw(t, "perPath"))}
+	sc.Root = rapid.IntRange(0, 3).Draw(t, "root") == 0
 	n := rapid.IntRange(70, 160).Draw(t, "n")
 	twoPaths := rapid.IntRange(0, 3).Draw(t, "twopaths") == 0
 	for i := 0; i < n; i++ {
@@ -511,6 +517,7 @@ func gen(t *rapid.T) Scenario {
 		return genLong(t)
 	}
 	sc := Scenario{Total: int64(rapid.IntRange(0, 3).Draw(t, "total")), PerPath: int64(rapid.IntRange(0, 2).Draw(t, "perPath"))}
+	sc.Root = rapid.IntRange(0, 3).Draw(t, "root") == 0
 	n := rapid.IntRange(4, 7).Draw(t, "n")
 	for i := 0; i < n; i++ {
 		sc.Paths = append(sc.Paths, rapid.IntRange(0, 2).Draw(t, "path"))
